@@ -32,7 +32,7 @@ ADDR = {'stm32': STM32, 'nrf51': NRF51}
 NAME = {STM32: 'stm32', NRF51: 'nrf51'}
 FRAME_MAX_DATA = 31          # "header plus at most 31 bytes"
 RETRY_BOUND = 8              # "a bounded number of times": fixed bound with slack (the code sends at most 6)
-NODE_BUDGET = 150000         # per worker job; never reached on the unchanged tree
+NODE_BUDGET = 3000000        # per worker job; never reached on the unchanged tree
 AFTER_VIOLATION = 2000       # executions a job may still spend after its first violation
 MAX_PACKETS_FACTOR = 8       # runaway guard on the total number of uplink packets
 
